@@ -15,6 +15,7 @@ import (
 	"regexp"
 	"sort"
 	"strings"
+	"sync"
 	"time"
 
 	"verif/harness/internal/hutil"
@@ -246,7 +247,16 @@ func groupEnabled(name string) bool { return !strings.HasSuffix(name, "_off") }
 // loadHistory loads the files in order into one engine, each with the group filter.
 // via[i] == "ir": the file is converted to IR first (hook VerifConvertAST) and installed with Engine.LoadFromIR.
 func loadHistory(fset *token.FileSet, files map[string]string, order []string, via []string) (e *ruleguard.Engine, err error) {
+	e, _, err = loadHistoryFailing(fset, files, order, via, nil)
+	return e, err
+}
+
+// loadHistoryFailing: the Load calls listed in mustFail (by index) are expected to return an error, after which the
+// caller carries on with the next file (as an embedder with a tolerant failure policy does); their messages are returned.
+// A call that fails although it is not listed, or succeeds although it is, is an error of the whole history.
+func loadHistoryFailing(fset *token.FileSet, files map[string]string, order []string, via []string, mustFail map[int]bool) (e *ruleguard.Engine, failed map[int]string, err error) {
 	for try := 0; try < 4; try++ {
+		failed = map[int]string{}
 		e, err = func() (e2 *ruleguard.Engine, err2 error) {
 			defer func() {
 				if r := recover(); r != nil {
@@ -256,18 +266,24 @@ func loadHistory(fset *token.FileSet, files map[string]string, order []string, v
 			e2 = ruleguard.NewEngine()
 			ctx := &ruleguard.LoadContext{Fset: fset, GroupFilter: func(g *ruleguard.GoRuleGroup) bool { return groupEnabled(g.Name) }}
 			for i, name := range order {
+				var lerr error
 				if i < len(via) && via[i] == "ir" {
-					irf, err := ruleguard.VerifConvertAST(e2, ctx, name, []byte(files[name]))
-					if err != nil {
-						return nil, err
+					irf, cerr := ruleguard.VerifConvertAST(e2, ctx, name, []byte(files[name]))
+					if cerr != nil {
+						lerr = cerr
+					} else {
+						lerr = e2.LoadFromIR(ctx, name, irf)
 					}
-					if err := e2.LoadFromIR(ctx, name, irf); err != nil {
-						return nil, err
-					}
-					continue
+				} else {
+					lerr = e2.Load(ctx, name, strings.NewReader(files[name]))
 				}
-				if err := e2.Load(ctx, name, strings.NewReader(files[name])); err != nil {
-					return nil, err
+				switch {
+				case lerr != nil && mustFail[i] && !strings.Contains(lerr.Error(), importFlake):
+					failed[i] = lerr.Error()
+				case lerr != nil:
+					return nil, lerr
+				case mustFail[i]:
+					return nil, fmt.Errorf("target: Load #%d (%s) was built to be rejected and was accepted", i, name)
 				}
 			}
 			return e2, nil
@@ -277,7 +293,7 @@ func loadHistory(fset *token.FileSet, files map[string]string, order []string, v
 		}
 		time.Sleep(200 * time.Millisecond)
 	}
-	return e, err
+	return e, failed, err
 }
 
 var filterSrc = map[string]string{"": "", "dead": "m.Deadcode()", "live": "!m.Deadcode()", "const": `m["x"].Const`}
@@ -599,6 +615,15 @@ type rsObs struct {
 	Contested int              `json:"contested"`        // nodes on which more than one rule had an accepted match
 	Theme    string            `json:"theme,omitempty"`
 	Contains int               `json:"contains,omitempty"` // catalogue line: usable (outer, sub-pattern) combinations
+	LoadCalls []loadDesc       `json:"load_calls,omitempty"` // per Load call: file, groups it declares, rejected how
+	Ghosts   []ruleDesc        `json:"ghosts,omitempty"`     // the rules of the rejected files
+	GhostHits int              `json:"ghost_hits"`           // ... how many of them match somewhere in the target
+	Reentrant string           `json:"reentrant,omitempty"`  // the tree of runs started from Report callbacks
+	Others   map[string]string `json:"others,omitempty"`     // the other targets of that tree (on a mismatch)
+	Schedule [][3]int          `json:"schedule,omitempty"`   // the log of that tree (see planLog)
+	RunCounts [][2]int         `json:"run_counts,omitempty"` // per run of the tree: number of reports its callback received
+	NestedRuns int             `json:"nested_runs"`
+	ParallelRuns int           `json:"parallel_runs"`
 }
 
 var multiTagsOracle = map[nodetag.Value]bool{nodetag.BlockStmt: true, nodetag.CaseClause: true, nodetag.CommClause: true, nodetag.File: true}
@@ -668,15 +693,33 @@ func runRulesMode(enc *json.Encoder, rng *rand.Rand, nsets, size int, tmp string
 	}
 	for si := 0; si < nsets; si++ {
 		files, order, rules, parts, theme := genRuleSet(rng, pats, cat, bundles, si, pc)
+		// every other random history has Load calls that are rejected (the caller carries on with the next file)
+		var fp *failPlan
+		if si >= len(targetedSets) && rng.Intn(2) == 0 {
+			fp = addFailingLoads(rng, si, files, order, rules, parts, strings.Contains(theme, "pkgs"), pc, bundles)
+			order, parts = fp.order, fp.parts
+			for ri := range rules {
+				rules[ri].Load = fp.remap[rules[ri].Load]
+			}
+			rules = append(rules, fp.extra...)
+		} else {
+			fp = &failPlan{}
+			for li, g := range groupsOfLoads(len(order), rules) {
+				fp.loads = append(fp.loads, loadDesc{Name: order[li], Groups: g})
+			}
+		}
 		fset := token.NewFileSet()
 		var loadErr string
 		via := make([]string, len(order))
 		for i := range via {
 			via[i] = []string{"source", "source", "ir"}[rng.Intn(3)]
 		}
-		e, err := loadHistory(fset, files, order, via)
+		e, failed, err := loadHistoryFailing(fset, files, order, via, fp.mustFail)
 		if err != nil {
 			loadErr = err.Error()
+		}
+		for li, msg := range failed {
+			fp.loads[li].Err = msg
 		}
 		tg := targets[si%len(targets)]
 		if strings.Contains(theme, "pkgs") {
@@ -684,7 +727,7 @@ func runRulesMode(enc *json.Encoder, rng *rand.Rand, nsets, size int, tmp string
 		} else if theme == "contains" && nbase > 1 {
 			tg = targets[1+(si+rng.Intn(2))%(nbase-1)] // generated nestings: statement lists with loops and blocks inside
 		}
-		obs := rsObs{K: "rs", Set: si, Target: tg.name, Rules: rules, Parts: parts, Via: via, Theme: theme}
+		obs := rsObs{K: "rs", Set: si, Target: tg.name, Rules: rules, Parts: parts, Via: via, Theme: theme, LoadCalls: fp.loads, Ghosts: fp.ghosts}
 		// the shape of the load history: per Load call, how many syntax / comment rules it contributed
 		{
 			ns, nc := make([]int, len(order)), make([]int, len(order))
@@ -703,12 +746,22 @@ func runRulesMode(enc *json.Encoder, rng *rand.Rand, nsets, size int, tmp string
 					}
 					return "+"
 				}
-				obs.Loads = append(obs.Loads, cls(ns[i])+"s"+cls(nc[i])+"c")
+				if fp.mustFail[i] {
+					obs.Loads = append(obs.Loads, "rejected:"+fp.loads[i].Fail)
+				} else {
+					obs.Loads = append(obs.Loads, cls(ns[i])+"s"+cls(nc[i])+"c")
+				}
 				if i < len(order)-1 {
 					earlier += ns[i]
 				}
 			}
 			obs.LastLean = len(order) > 1 && ns[len(order)-1] == 0 && earlier > 0
+		}
+		if strings.HasPrefix(loadErr, "target: ") {
+			obs.Err = loadErr
+			obs.Files, obs.Order = files, order
+			enc.Encode(obs)
+			continue
 		}
 		if loadErr != "" {
 			obs.Err = "load: " + loadErr
@@ -725,8 +778,17 @@ func runRulesMode(enc *json.Encoder, rng *rand.Rand, nsets, size int, tmp string
 		if pmsg != "" {
 			obs.Mismatch = "run failed: " + pmsg
 		}
+		ghostKey := map[string]int{}
+		for _, g := range fp.ghosts {
+			ghostKey[fmt.Sprintf("%s:%d", g.Group, g.Line)] = g.Idx
+		}
 		for _, r := range reps {
-			idx, ok := byKey[fmt.Sprintf("%s:%d", r.Group, r.Line)]
+			key := fmt.Sprintf("%s:%d", r.Group, r.Line)
+			idx, ok := byKey[key]
+			// a rule of a rejected file: a group of its own, or the re-declared group (whose message no loaded rule has)
+			if gi, isGhost := ghostKey[key]; isGhost && (!ok || strings.HasPrefix(r.Message, "redefined ") || (strings.HasPrefix(r.Message, "x") && !strings.HasPrefix(r.Message, "retry "))) {
+				idx, ok = gi, true
+			}
 			if !ok {
 				idx = -1
 			}
@@ -837,6 +899,22 @@ func runRulesMode(enc *json.Encoder, rng *rand.Rand, nsets, size int, tmp string
 				obs.Contested++
 			}
 		}
+		// would the rules of the rejected files have reported on this target?
+		for _, g := range fp.ghosts {
+			if g.pat == nil {
+				continue
+			}
+			hit := false
+			for _, tn := range order2 {
+				if hit {
+					break
+				}
+				g.pat.MatchNode(&state, tn.n, func(gogrep.MatchData) { hit = true })
+			}
+			if hit {
+				obs.GhostHits++
+			}
+		}
 		// comment rules run after the walk: every comment in order, the first rule whose regexp matches reports the match
 		for _, cg := range t.File.Comments {
 			for _, cm := range cg.List {
@@ -861,6 +939,10 @@ func runRulesMode(enc *json.Encoder, rng *rand.Rand, nsets, size int, tmp string
 		sort.Strings(obs.Pairs)
 		for i := 0; (i < len(obs.Engine) || i < len(obs.Oracle)) && obs.Mismatch == ""; i++ {
 			desc := func(r rep) string {
+				if r.Rule >= len(rules) && r.Rule-len(rules) < len(fp.ghosts) {
+					g := fp.ghosts[r.Rule-len(rules)]
+					return fmt.Sprintf("rule %s:%d `%s` of %s, whose Load was rejected (%s), on offsets %d-%d", g.Group, g.Line, g.Src, g.File, fp.loads[g.Load].Fail, r.Pos, r.End)
+				}
 				if r.Rule < 0 || r.Rule >= len(rules) {
 					return fmt.Sprintf("unknown rule at %d-%d", r.Pos, r.End)
 				}
@@ -880,6 +962,91 @@ func runRulesMode(enc *json.Encoder, rng *rand.Rand, nsets, size int, tmp string
 				obs.Mismatch = fmt.Sprintf("report #%d not expected: %s", i, desc(obs.Engine[i]))
 			case obs.Engine[i] != obs.Oracle[i]:
 				obs.Mismatch = fmt.Sprintf("report #%d: expected %s, engine reported %s", i, desc(obs.Oracle[i]), desc(obs.Engine[i]))
+			}
+		}
+		// re-entrant runs: the Report callback of a run over this target starts runs over this and other targets (nil / own /
+		// pooled states; same or another goroutine; up to three levels); every run of the tree reports what it reports alone
+		if pmsg == "" {
+			cand := []tgt{tg, targets[rng.Intn(len(targets))], pkgTargets[rng.Intn(len(pkgTargets))]}
+			var tl []*hutil.Target
+			var names []string
+			var lone [][]hReport
+			for _, c := range cand {
+				r, _, m := runOnce(e, c.t, c.t.File, 0, nil, -1)
+				if m != "" {
+					continue // a crash of a lone run over another target is that set's finding, not this one's
+				}
+				tl, names, lone = append(tl, c.t), append(names, c.name), append(lone, r)
+			}
+			if len(tl) > 0 && names[0] == tg.name && len(lone[0]) == len(reps) {
+				nrep := make([]int, len(lone))
+				for k := range lone {
+					nrep[k] = len(lone[k])
+				}
+				plan := genPlan(rng, nrep, 0, []string{"nil", "nil", "own", "pool"}[rng.Intn(4)], 1+rng.Intn(3))
+				plog := &planLog{}
+				runPlanLogged(e, tl, plan, &statePool{e: e}, plog)
+				mm, nruns, nnested := checkPlan(plan, func(k, _ int) ([]hReport, string) { return lone[k], "" })
+				_ = nruns
+				obs.NestedRuns = nnested
+				if nnested > 0 {
+					obs.Reentrant = describePlan(plan, names, "")
+					if len(plog.Steps) < 3000 {
+						obs.Schedule = plog.Steps
+						var runs []struct {
+							Path string
+							P    *nestPlan
+						}
+						planRuns(plan, "0", &runs)
+						for _, r := range runs {
+							obs.RunCounts = append(obs.RunCounts, [2]int{r.P.id, len(r.P.reps)})
+						}
+					}
+				}
+				// ... and as one of six runs of this engine that are in progress at the same time on goroutines of their own
+				// (Engine.Run is documented as safe for concurrent use; nil states and states of their own)
+				{
+					type res struct {
+						reps []hReport
+						msg  string
+					}
+					out := make([]res, 6)
+					var wg sync.WaitGroup
+					start := make(chan struct{})
+					for k := range out {
+						var st *ruleguard.RunnerState
+						if k%3 == 2 {
+							st = ruleguard.NewRunnerState(e)
+						}
+						wg.Add(1)
+						go func(k int, st *ruleguard.RunnerState) {
+							defer wg.Done()
+							<-start
+							t := tl[k%len(tl)]
+							out[k].reps, _, out[k].msg = runOnce(e, t, t.File, 0, st, -1)
+						}(k, st)
+					}
+					close(start)
+					wg.Wait()
+					obs.ParallelRuns = len(out)
+					for k := range out {
+						if mm != "" {
+							break
+						}
+						if out[k].msg != "" {
+							mm = fmt.Sprintf("six runs on goroutines of their own, at the same time: the run over %s: %s", names[k%len(tl)], out[k].msg)
+						} else if d := diffReports(out[k].reps, lone[k%len(tl)]); d != "" {
+							mm = fmt.Sprintf("six runs on goroutines of their own, at the same time: the run over %s gives %s (= the same run alone)", names[k%len(tl)], d)
+						}
+					}
+				}
+				if mm != "" && obs.Mismatch == "" {
+					obs.Mismatch = "re-entrant runs: " + mm
+					obs.Others = map[string]string{}
+					for k := 1; k < len(tl); k++ {
+						obs.Others[names[k]] = string(tl[k].Src)
+					}
+				}
 			}
 		}
 		if obs.Mismatch != "" {
